@@ -208,6 +208,27 @@ class Tacd:
                 s.sendall(outb.read())
                 time.sleep(0.05)
                 s.close()
+            elif kind == "slow_peer":
+                # the first bytes of a real ClientHello, one every three seconds for 33 s, then the peer gives up
+                s = self._connect()
+                ctx = ssl.SSLContext(ssl.PROTOCOL_TLS_CLIENT)
+                ctx.check_hostname = False
+                ctx.verify_mode = ssl.CERT_NONE
+                ctx.set_alpn_protocols([ACME])
+                inb, outb = ssl.MemoryBIO(), ssl.MemoryBIO()
+                o = ctx.wrap_bio(inb, outb, server_hostname="slow.example")
+                try:
+                    o.do_handshake()
+                except ssl.SSLWantReadError:
+                    pass
+                hello = outb.read()
+                for k in range(11):
+                    try:
+                        s.sendall(hello[k:k + 1])
+                    except OSError:
+                        break
+                    time.sleep(3)
+                s.close()
             elif kind == "stalled_50":
                 socks = []
                 for _ in range(50):
